@@ -99,9 +99,38 @@ type AdmitKnobs struct {
 
 func mutateForUpdate(r *Rng, p *corev1.Pod) (*corev1.Pod, string) {
 	old := p.DeepCopy()
-	switch r.Intn(9) {
+	switch r.Intn(11) {
 	case 0:
 		return old, "identical"
+	case 9:
+		// the boundary between the init list and the regular list moves; the images, read init-then-regular, line up as before
+		if n := len(old.Spec.InitContainers); n > 0 {
+			moved := old.Spec.InitContainers[n-1]
+			old.Spec.InitContainers = old.Spec.InitContainers[:n-1]
+			old.Spec.Containers = append([]corev1.Container{moved}, old.Spec.Containers...)
+			return old, "init-regular-boundary-moved"
+		}
+		if n := len(old.Spec.Containers); n > 1 {
+			moved := old.Spec.Containers[0]
+			old.Spec.Containers = old.Spec.Containers[1:]
+			old.Spec.InitContainers = append(old.Spec.InitContainers, moved)
+			return old, "init-regular-boundary-moved"
+		}
+		return old, "identical"
+	case 10:
+		// one list grows and another shrinks by one container (same images elsewhere)
+		if n := len(old.Spec.EphemeralContainers); n > 0 {
+			e := old.Spec.EphemeralContainers[n-1]
+			old.Spec.EphemeralContainers = old.Spec.EphemeralContainers[:n-1]
+			old.Spec.Containers = append(old.Spec.Containers, corev1.Container{Name: e.Name, Image: e.Image})
+			return old, "ephemeral-regular-boundary-moved"
+		}
+		old.Spec.InitContainers = append(old.Spec.InitContainers, old.Spec.Containers[len(old.Spec.Containers)-1])
+		if len(old.Spec.Containers) > 1 {
+			old.Spec.Containers = old.Spec.Containers[:len(old.Spec.Containers)-1]
+			return old, "init-regular-boundary-moved"
+		}
+		return old, "init-removed"
 	case 1:
 		old.Labels = map[string]string{"x": "y"}
 		old.Finalizers = []string{"f"}
@@ -298,6 +327,9 @@ func genAdmitCase(r *Rng, i int, k AdmitKnobs) *AdmitCase {
 				}
 			}
 		}
+		for _, p := range a.Pods {
+			podStatusNoise(r, p)
+		}
 		if r.Chance(1, 4) && len(a.Pods) > 0 {
 			a.ExpireAfter = r.Intn(len(a.Pods) + 2)
 		}
@@ -339,6 +371,11 @@ func genAdmitCase(r *Rng, i int, k AdmitKnobs) *AdmitCase {
 				tag("meta.bothTerminating")
 			}
 		}
+	}
+	// the looked-up namespace object outside its labels: terminating, long-lived with annotations, ...
+	if r.Chance(1, 3) {
+		a.NSMeta = 1 + r.Intn(4)
+		tag(fmt.Sprintf("nsMeta.%d", a.NSMeta))
 	}
 	switch faultSite {
 	case 0:
@@ -402,6 +439,28 @@ func genAdmitCase(r *Rng, i int, k AdmitKnobs) *AdmitCase {
 }
 
 // genPopPod: a pod of an existing population (namespace dry run)
+// podStatusNoise: the part of an existing pod no property mentions — its status (phase, reason, conditions, container statuses)
+// and where it runs. A finished, evicted or unschedulable pod still exists in the namespace.
+func podStatusNoise(r *Rng, p *corev1.Pod) {
+	if !r.Chance(2, 5) {
+		return
+	}
+	p.Status.Phase = pick(r, []corev1.PodPhase{corev1.PodPending, corev1.PodRunning, corev1.PodSucceeded, corev1.PodFailed, corev1.PodUnknown, corev1.PodSucceeded, corev1.PodFailed})
+	switch p.Status.Phase {
+	case corev1.PodFailed:
+		p.Status.Reason = pick(r, []string{"Evicted", "NodeLost", "DeadlineExceeded", ""})
+		p.Status.Message = "The node was low on resource: memory."
+	case corev1.PodSucceeded:
+		p.Status.ContainerStatuses = []corev1.ContainerStatus{{Name: "c", State: corev1.ContainerState{Terminated: &corev1.ContainerStateTerminated{ExitCode: 0, Reason: "Completed"}}}}
+	case corev1.PodRunning:
+		p.Status.Conditions = []corev1.PodCondition{{Type: corev1.PodReady, Status: corev1.ConditionTrue}}
+		p.Status.PodIP, p.Status.HostIP = "10.0.0.7", "192.168.1.4"
+		p.Status.QOSClass = corev1.PodQOSBestEffort
+	case corev1.PodPending:
+		p.Status.Conditions = []corev1.PodCondition{{Type: corev1.PodScheduled, Status: corev1.ConditionFalse, Reason: corev1.PodReasonUnschedulable}}
+	}
+}
+
 func genPopPod(r *Rng, j int, exRC []string) *corev1.Pod {
 	name := pick(r, []string{"pod", "p", "a", "z", "web", "db"}) + fmt.Sprintf("-%d", r.Intn(50))
 	if r.Chance(1, 6) {
